@@ -385,6 +385,9 @@ def _minimal_cases():
     # one row wider than a 64 KiB block
     out.append(plain_case("hrs", 131074, 1, 0))
     out.append(plain_case("max", 8 * 65540, 1, 0))
+    # a skip longer than a 64 KiB block
+    out.append(plain_case("max", 16, 2, 70000))
+    out.append(plain_case("hrs", 8, 2, 100000))
     return out
 
 
@@ -432,7 +435,9 @@ def c19_tail_chunk(arg):
     recs = []
     n = len(case.data)
     backs = list(range(1, 33)) + [40, 48, 64, 100, 161, 256, 700, 1500, 4000]
-    cuts = sorted(set((n - back) for back in backs if n - back >= 0))
+    # ... and a copy that barely started: the first bytes only
+    heads = [k for k in (0, 1, 2, 3, 5, 16, 17, 18, 19, 21, 51, 100, 1000, 4000) if k < n]
+    cuts = sorted(set([(n - back) for back in backs if n - back >= 0] + heads))
     envs = (Env(), Env("dash", "dash", "small", "small", n, n))
     line = LINE_BYTES.get(ci)
     if line:
